@@ -175,6 +175,13 @@ def hoomd(chk, cls, sh, desc):
     S = coxeter.shapes
     st, h = C.excname(sh.to_hoomd)
     if st != "ok":
+        # recorded known finding: Polyhedron.to_hoomd evaluates centroid / volume / inertia tensor, which run the vendored polytri;
+        # its absolute thresholds reject valid small meshes - the same mesh scaled up by 2^24 (exact in binary64) is accepted
+        if (st == "ValueError" and cls == "Polyhedron" and chk.is_known("polytri-absolute-thresholds")
+                and C.excname(S.Polyhedron(np.array(sh.vertices) * 2.0 ** 24, [np.array(f) for f in sh.faces]).to_hoomd)[0] == "ok"):
+            chk.known_finding("polytri-absolute-thresholds", "Polyhedron.to_hoomd raises ValueError('Triangulation failed') on valid small meshes (polytri absolute thresholds); the same mesh scaled by 2^24 succeeds")
+            chk.count("known:polytri")
+            return
         chk.violation("to_hoomd-raised", dict(desc, error=st)); return
     expect = dict(Polygon={"vertices", "centroid", "sweep_radius", "area", "moment_inertia"},
                   ConvexPolygon={"vertices", "centroid", "sweep_radius", "area", "moment_inertia"},
